@@ -287,6 +287,16 @@ func runC06(r *mc.Run) {
 		}
 		c06IssueDate = ""
 	}
+	// documents issued AFTER the moment their signer (or the root) became valid, that moment being the boundary
+	// explored: a certificate is judged at the configured time, whatever the document says about its own issue
+	for _, d := range []string{world.TimeStr(mo(0)), world.TimeStr(mo(-1).Add(time.Hour)), world.TimeStr(mo(1))} {
+		c06IssueDate = d
+		for _, f := range []string{"nb:tcbSigner", "nb:qeSigner", "nb:root"} {
+			shapes = append(shapes, c06Build(2, f))
+		}
+		shapes = append(shapes, c06Build(3, "nb:tcbSigner"))
+		c06IssueDate = ""
+	}
 	// Intel-like in one more respect: one TCB-signing certificate serves both JSON documents
 	shapes = append(shapes, c06Build(3, ""))
 	for _, f := range []string{"root", "tcbSigner", "nb:root", "nb:tcbSigner", "tcbNext", "qeNext"} {
